@@ -2,10 +2,10 @@ package checks
 
 import (
 	"fmt"
-	"os"
 	"go/ast"
 	"go/token"
 	"go/types"
+	"os"
 	"strings"
 
 	"verif/internal/core"
